@@ -51,7 +51,7 @@ def ast_from_string(value: str) -> datetime.datetime | str:
     except ValueError as err:
         logging.warning('Failed to parse availabilityStartTime: %s', err)
         raise err
-    if not isinstance(value, datetime.datetime):
+    if value is not None and not isinstance(value, datetime.datetime):
         # e.g. a time of day or a duration
         raise ValueError(f'Invalid availabilityStartTime "{value}"')
     return value
